@@ -11,6 +11,8 @@
  J4 SORTED-KEYS       JsonbView::get is a binary search over the keys, so each writer sorts an object's entries before emitting.
  J5 LEN-FITS          a length stored in a narrower integer than usize must be bounded before the cast (`len as u16` of a string
                       or key wraps at 65 536 and the reader then slices the wrong bytes).
+ J7 MASK-FITS         a value masked into the 24 payload bits of an entry word (`x & OFFSET_MASK`) must be compared with the
+                      payload limit first: a data offset or inline value of 2^24 or more is stored modulo 2^24.
 Equality of parsed values (numbers, escapes, duplicate keys) is NOT decided.
 """
 from model import CheckError, operand_place
@@ -125,6 +127,47 @@ def run(ctx):
                                "truncated" % s[2][3], "%s:%s" % (f.file, s[3]))
                         k += 1
     ctx.floor("J5.narrowing_length_casts", n5, 4)
+    # J7 MASK-FITS: an entry word has 24 payload bits; `x & OFFSET_MASK` silently drops the rest.  Whatever is masked into an
+    # entry (a data-section offset, or any value a later change stores inline) must be bounded first.
+    n7 = 0
+    for pre, adt in ((P, "parsing::json::JsonValue"), (B, "records::jsonb::JsonbBuilderValue")):
+        for name in ("encode_value", "encode_entry"):
+            f = m.fn(pre + name)
+            sws = codec.enum_switches(f, adt, m)
+            arms = max(sws, key=lambda x: len(x[1]))[1] if sws else {}
+            regions = {v: set(codec.dominated(f, t)) for v, t in arms.items()}
+            seen_keys = {}
+            for bb, b in enumerate(f.blocks):
+                for st in b["s"]:
+                    if not (st[0] == "=" and st[2][0] == "bin" and st[2][1] == "BitAnd"):
+                        continue
+                    ka, kb = const_value(f, st[2][2]), const_value(f, st[2][3])
+                    if 0x00FFFFFF not in (ka, kb):
+                        continue
+                    x = st[2][2] if kb == 0x00FFFFFF else st[2][3]
+                    q = operand_place(x)
+                    if q is None:
+                        continue   # a constant
+                    src = source_call(f, q[0]) if not q[1] else None
+                    sname = src.name.rsplit("::", 1)[-1] if src is not None else "value"
+                    arm = sorted(v for v, r in regions.items() if bb in r)
+                    base = "%s%s:%s:%s" % (pre.split("::")[-2] + "::", name, "/".join(arm) or "-", sname)
+                    seen_keys[base] = seen_keys.get(base, 0) + 1
+                    key = base if seen_keys[base] == 1 else "%s#%d" % (base, seen_keys[base])
+                    n7 += 1
+                    guarded = False
+                    for d in f.dominators().get(bb, ()):
+                        t = f.blocks[d]["t"]
+                        if t[0] == "switch" and t[2] == "bool":
+                            pl = operand_place(t[1])
+                            kk, pp, _ = f.origin(pl[0]) if pl and not pl[1] else (None, None, False)
+                            if kk == "rvalue" and pp[0] == "bin" and pp[1] in ("Gt", "Ge", "Lt", "Le") and (
+                                    const_value(f, pp[2]) in (0x00FFFFFF, 0x01000000) or const_value(f, pp[3]) in (0x00FFFFFF, 0x01000000)):
+                                guarded = True
+                    ctx.ob("J7.MASK-FITS", key, guarded, "bounded against the 24-bit payload before masking" if guarded else
+                           "`%s & OFFSET_MASK` without a bound: a value of 2^24 or more is stored modulo 2^24 and the reader follows / returns "
+                           "the wrapped value" % sname, "%s:%s" % (f.file, st[3]))
+    ctx.floor("J7.masked_payloads", n7, 8)
     path_is_stepwise(ctx)
 
 
